@@ -529,8 +529,8 @@ Qed.
 Lemma no_own_rx_shb m t pv now life : no_own m t -> mid_eqb (pv_addr pv) (m_addr m) = false ->
   no_own m (rx_shb t pv now life).
 Proof.
-  intros Ht Hp e He. unfold rx_shb in He. pose proof (get_or_new_addr t (pv_addr pv)) as A.
-  destruct (get_or_new t (pv_addr pv)) as [e0 b]. cbn [fst] in A.
+  intros Ht Hp e He. unfold rx_shb in He. pose proof (get_or_new_addr t (pv_addr pv) now life) as A.
+  destruct (get_or_new t (pv_addr pv) now life) as [e0 b]. cbn [fst] in A.
   apply filter_In in He as [He _]. apply in_upsert in He as [He| ->]; [auto|].
   cbn [e_addr]. destruct (update_frame e0 pv) as [-> _]. rewrite A. exact Hp.
 Qed.
@@ -538,8 +538,8 @@ Qed.
 Lemma no_own_rx_mh m t pv sn now life len t' : no_own m t -> mid_eqb (pv_addr pv) (m_addr m) = false ->
   rx_mh t pv sn now life len = Some t' -> no_own m t'.
 Proof.
-  intros Ht Hp R e He. unfold rx_mh in R. pose proof (get_or_new_addr t (pv_addr pv)) as A.
-  destruct (get_or_new t (pv_addr pv)) as [e0 b]. cbn [fst] in A.
+  intros Ht Hp R e He. unfold rx_mh in R. pose proof (get_or_new_addr t (pv_addr pv) now life) as A.
+  destruct (get_or_new t (pv_addr pv) now life) as [e0 b]. cbn [fst] in A.
   destruct (check_dup _ _ _) as [d|]; [|discriminate]. injection R as <-.
   apply filter_In in He as [He _]. apply in_upsert in He as [He| ->]; [auto|].
   destruct (update_frame (mkEntry (e_addr e0) (e_pv e0) (e_set e0) (e_nb e0) (e_ls e0) d) pv) as [-> _].
